@@ -62,10 +62,18 @@ pub fn policy(_tier: Tier, w: &Arc<World>) -> Scn {
                 o.1 = if write { len.to_string() } else { "0".into() };
             }
         }
+        if d.chance("swarm.req.unhonourable_option", 1, 6) {
+            // the policy decision must not depend on whether the options could be honoured
+            let (k, v) = d.pick("swarm.req.bad_option", &[("timeout", "0"), ("windowsize", "0"), ("blksize", "4"), ("blksize", "65465"), ("windowsize", "65536")]);
+            xc.opts.retain(|(n, _)| n != k);
+            xc.opts.push((k.to_string(), v.to_string()));
+        }
         xc.timeout_ns = oc.tmo_s * SEC;
         xc.resend_request = false;
+        xc.retries = 3;
+        let sent_opts = xc.opts.clone();
         let (peer, client) = if write { w.add_peer(Box::new(Writer::new(xc, data.to_vec())), srv.v6, 0) } else { w.add_peer(Box::new(Reader::new(xc)), srv.v6, 0) };
-        desc.push_str(&format!("{}{:?}{:?} ", if write { "W" } else { "R" }, name, oc.opts));
+        desc.push_str(&format!("{}{:?}{:?} ", if write { "W" } else { "R" }, name, sent_opts));
         reqs.push(ReqInfo { client, peer, write, name: name.to_string(), content: data });
         w.start_peer_at(peer, 10 * MS + i as Ns * GAP);
     }
@@ -268,10 +276,20 @@ pub fn options(_tier: Tier, w: &Arc<World>) -> Scn {
     let kind = if write { Kind::Upload } else { Kind::Download };
     let (peer, client) = if write { w.add_peer(Box::new(Writer::new(xc, data.to_vec())), srv.v6, 0) } else { w.add_peer(Box::new(Reader::new(xc)), srv.v6, 0) };
     w.add_monitor(Box::new(OptMon::new(client, write, opts, len as u64)));
-    let spec = XferSpec { client, peer, kind, content: data.clone(), path, conformant: !silent, dally: true, timeout_ratio: 2 };
-    w.add_monitor(Box::new(XferMon::new("C09", Rules { c09: true, ..Default::default() }, vec![spec], dupn)));
+    let mut specs = vec![XferSpec { client, peer, kind, content: data.clone(), path, conformant: !silent, dally: true, timeout_ratio: 2 }];
+    let mut bystander = None;
+    if d.chance("swarm.bystander", 1, 4) {
+        // "the transfer uses precisely the acknowledged block length" also while another client talks to the server
+        let (bp, spec) = crate::scen::add_bystander(&d, w, &srv, &dir);
+        specs.push(spec);
+        bystander = Some(bp);
+    }
+    w.add_monitor(Box::new(XferMon::new("C09", Rules { c09: true, ..Default::default() }, specs, dupn)));
     boot_server(w, &srv).expect("server config");
     w.start_peer_at(peer, 10 * MS);
+    if let Some((bp, at)) = bystander {
+        w.start_peer_at(bp, at);
+    }
     Scn { sandbox, desc, step_cap: 600_000, time_cap: 100_000_000 * SEC, faultfree: true }
 }
 
@@ -349,6 +367,28 @@ pub fn hostile(_tier: Tier, w: &Arc<World>) -> Scn {
     std::fs::write(dir.join("probe.bin"), &*probe_data).unwrap();
     let big = Arc::new(content(9000, 6));
     std::fs::write(dir.join("big.bin"), &*big).unwrap();
+    if d.chance("swarm.crowd", 1, 400) {
+        // "from any number of sources": several hundred endpoints are served one after the other, then a probe
+        let n = d.pick("swarm.crowd.size", &[300usize, 260, 520]);
+        let mut probes = vec![];
+        for i in 0..n {
+            let mut xc = XferCfg::new(srv.addr(), "probe.bin");
+            xc.resend_request = false;
+            let (p, _) = w.add_peer(Box::new(Reader::new(xc)), srv.v6, 0);
+            w.start_peer_at(p, 10 * MS + i as Ns * 20 * MS);
+            if i % 37 == 0 {
+                probes.push((p, probe_data.clone()));
+            }
+        }
+        let xc = XferCfg::new(srv.addr(), "probe.bin");
+        let (p, _) = w.add_peer(Box::new(Reader::new(xc)), srv.v6, 0);
+        w.start_peer_at(p, 10 * MS + n as Ns * 20 * MS + 100 * SEC);
+        probes.push((p, probe_data.clone()));
+        let desc = format!("crowd {} endpoints={n} then a probe", srv.describe());
+        w.add_monitor(Box::new(LiveMon::new(probes)));
+        boot_server(w, &srv).expect("server config");
+        return Scn { sandbox, desc, step_cap: 2_000_000, time_cap: 100_000_000 * SEC, faultfree: true };
+    }
     let nsrc = 1 + d.range("swarm.sources", 3) as usize;
     let ndg = 1 + d.range("swarm.hostile.count", 12) as usize;
     let mut scripts: Vec<Vec<(Ns, Target, Vec<u8>)>> = vec![vec![]; nsrc];
